@@ -312,7 +312,16 @@ impl LuaDocLexer<'_> {
             }
             ch if ch == '"' || ch == '\'' => {
                 reader.bump();
-                reader.eat_while(|c| c != ch);
+                // a backslash escapes the next character, so `\"` does not end the string
+                while !reader.is_eof() && reader.current_char() != ch {
+                    if reader.current_char() == '\\' {
+                        reader.bump();
+                        if reader.is_eof() {
+                            break;
+                        }
+                    }
+                    reader.bump();
+                }
                 if reader.current_char() == ch {
                     reader.bump();
                 }
@@ -918,5 +927,25 @@ mod tests {
         let text = lexer.origin_text[range.start_offset..range.end_offset()].to_string();
         assert_eq!(text, " comment");
         assert_eq!(k2, LuaTokenKind::TkDocTrivia);
+    }
+
+    #[test]
+    fn test_lex_string_with_escaped_quote() {
+        use crate::lexer::LuaDocLexerState;
+
+        let text = r#""a\"b" x"#;
+        let mut lexer = LuaDocLexer::new(text);
+        lexer.reset(
+            LuaTokenKind::TkShortComment,
+            SourceRange::new(0, text.len()),
+        );
+        lexer.state = LuaDocLexerState::Normal;
+        let k = lexer.lex();
+        let range = lexer.current_token_range();
+        assert_eq!(k, LuaTokenKind::TkString);
+        assert_eq!(
+            &lexer.origin_text[range.start_offset..range.end_offset()],
+            r#""a\"b""#
+        );
     }
 }
